@@ -135,6 +135,38 @@ def incidence_stream(ctx, n):
             ctx.disagree(f"C07:{desc.split(' ')[0]}", desc, before[1:3], after[1:3], replay=[desc])
 
 
+def dual_quadric_stream(ctx, n, prefix="C07"):
+    """dual quadrics (type (2,0)) under transformations: t * (C.dual) is the dual of t * C, and a hyperplane tangent to C is
+    contained in the dual before and after (the dual transforms with t on both indices, not with the inverse)"""
+    import geometer as g
+    rng = ctx.rng
+    for k in range(n):
+        dim = 2 if k % 3 else 3
+        t = TM.of(rand_matrix(rng, dim + 1))
+        T = t.impl()
+        if dim == 2:
+            cx, cy, r = rng.randint(-3, 3), rng.randint(-3, 3), rng.choice([5, 5, 13])
+            C = g.Circle(g.Point(float(cx), float(cy)), float(r)) if k % 2 else g.Ellipse(g.Point(float(cx), float(cy)), float(r), float(rng.choice([2, 3])))
+            on = g.Point(float(cx + (3 if r == 5 else 5)), float(cy + (4 if r == 5 else 12))) if k % 2 else g.Point(float(cx + r), float(cy))
+        else:
+            c = [rng.randint(-3, 3) for _ in range(3)]
+            C = g.Sphere(g.Point(*[float(x) for x in c]), 7.0)
+            on = g.Point(float(c[0] + 2), float(c[1] + 3), float(c[2] + 6))
+        desc = f"dual quadric dim={dim} {t.enc()} {np.asarray(C.array).tolist()}"
+        ctx.case(desc)
+        ctx.count(f"dual-quadric:{dim}d")
+        def run():
+            D = C.dual
+            h = C.tangent(on)
+            TD, TC = T * D, T * C
+            return (bool(D.is_dual), bool(TD.is_dual), bool(D.contains(h)), bool(TD.contains(T * h)), bool(TD == TC.dual), bool(TC.is_tangent(T * h)),
+                    type(TD).__name__ == type(D).__name__)
+        r = call_impl(run)
+        if r[0] != "ok" or r[1] != (True, True, True, True, True, True, True):
+            ctx.disagree(f"{prefix}:dual-quadric", desc, "(dual, dual, tangent in dual, image tangent in image dual, t*dual = dual of image, is_tangent, same class)",
+                         r[1:3], replay=[desc])
+
+
 def crossratio_stream(ctx, n):
     import geometer as g
     from fractions import Fraction
@@ -281,6 +313,7 @@ def edited_stream(ctx, n):
 
 
 def correspondence(ctx):
+    dual_quadric_stream(ctx, ctx.budget(45, 500))
     edited_stream(ctx, ctx.budget(20, 200))
     commute_stream(ctx, ctx.budget(30, 500))
     incidence_stream(ctx, ctx.budget(300, 5000))
